@@ -104,7 +104,22 @@ def _pool_call(arg):
     except HarnessError as e:
         return ("harness", f"{e}\n{traceback.format_exc()}")
     except BaseException as e:  # noqa: BLE001 - reported as harness error with traceback
-        return ("harness", f"{type(e).__name__}: {e}\n{traceback.format_exc()}")
+        return ("libraise" if _raised_in_library(e) else "harness", f"{type(e).__name__}: {e}\n{traceback.format_exc()}")
+
+
+class LibraryRaised(Exception):
+    """The code under test raised an exception the check did not anticipate, on an input inside the property's domain."""
+
+
+def _raised_in_library(exc):
+    """True when the innermost frame of the traceback is a file of the library under test (not of /verif, not of the stdlib)."""
+    tb = exc.__traceback__
+    last = None
+    while tb is not None:
+        last = tb.tb_frame.f_code.co_filename
+        tb = tb.tb_next
+    repo = os.path.realpath(os.environ.get("VERIF_REPO", "/repo"))
+    return bool(last) and os.path.realpath(last).startswith(os.path.join(repo, "aiokafka") + os.sep)
 
 
 class Ctx(Acc):
@@ -147,7 +162,7 @@ class Ctx(Acc):
             for status, r in pool.imap_unordered(_pool_call, shards, chunksize):
                 if status != "ok":
                     pool.terminate()
-                    raise HarnessError(r)
+                    raise (LibraryRaised if status == "libraise" else HarnessError)(r)
                 if merge:
                     self.merge(r)
                 else:
@@ -249,9 +264,17 @@ def main(argv=None):
     except HarnessError as e:
         print(f"HARNESS-ERROR property={args.prop} {e}", flush=True)
         return 2
-    except Exception:  # noqa: BLE001
-        print(f"HARNESS-ERROR property={args.prop} unexpected exception\n{traceback.format_exc()}", flush=True)
-        return 2
+    except Exception as e:  # noqa: BLE001
+        text = str(e) if isinstance(e, LibraryRaised) else traceback.format_exc()
+        if not (isinstance(e, LibraryRaised) or _raised_in_library(e)):
+            print(f"HARNESS-ERROR property={args.prop} unexpected exception\n{text}", flush=True)
+            return 2
+        # The library itself raised, from inside its own code, while the check was feeding it an input of the property's domain
+        # and the check had no branch for that: the remaining cases were not run. Reported as a violation with the traceback.
+        last = [ln for ln in text.strip().splitlines() if ln.strip()][-1]
+        ctx.violation("library-raised", {"what": "unanticipated-exception", "type": last.split(":")[0][:60]},
+                      {"traceback": text[-4000:]}, f"the code under test raised {last[:300]} (run aborted; traceback in the replay file)")
+        ctx.cap("run aborted by an exception raised inside the library")
     wall = time.time() - ctx.t0
     findings = load_findings()
     new = []
